@@ -326,6 +326,10 @@ func validate(r *telemetry.Report, cfg *tconfig.Config) error {
 	// TODO: We can probably keep known programs and counters even when a report
 	// includes something that has been removed from the latest config.
 	for _, p := range r.Programs {
+		if p == nil {
+			// A JSON null in the Programs array decodes to a nil entry.
+			return fmt.Errorf("invalid program entry")
+		}
 		if !cfg.HasGOARCH(p.GOARCH) ||
 			!cfg.HasGOOS(p.GOOS) ||
 			!cfg.HasGoVersion(p.GoVersion) ||
